@@ -318,6 +318,20 @@ def add_component(W, d, di, spec):
 
 def build_data(W, di, desc):
     label, shape, comps, coords, style, meta = desc
+    if shape and shape[0] == "region":   # a RegionData: [“region”, n] — n boxes, centre components, an ExtendedComponent
+        import shapely
+        from glue.core.data_region import RegionData
+        n = shape[1]
+        g = lcg(meta + 7 * n)
+        boxes = np.array([shapely.box(i, (next(g) % 5), i + 1 + (next(g) % 3), 6 + (next(g) % 4)) for i in range(n)])
+        d = RegionData(label=label, boundary=boxes)
+        for spec in comps:
+            add_component(W, d, di, spec if spec[0] not in ("d", "p", "l") else ["f", spec[1], spec[2]])
+        make_style(d, style)
+        make_meta(d, meta)
+        for c in d.components:
+            W.use(d.get_component(c))
+        return W.use(d)
     shape = tuple(shape)
     kw = {}
     if coords == "id":
